@@ -6,9 +6,15 @@ from ..leafcommon import *
 
 class C01(Prop):
   id = 'C01'
-  lean_module = 'DK.Props.C01'
+  lean_module = 'DK.Props.C01all'
   uses_t1 = True
-  theorems = []
+  theorems = {
+    'DK.Props.C01': ['DK.C01.partial_of_isGradAt', 'DK.C01.device_grad', 'DK.C01.cdevice_grad', 'DK.C01.idevice2_grad', 'DK.C01.idevice_grad',
+                     'DK.C01.idevice_grad_int', 'DK.C01.gdevice_grad', 'DK.C01.cdevice2_grad'],
+    'DK.Props.C01b': ['DK.C01b.sdevice_grad', 'DK.C01b.tdevice_grad'],
+    'DK.Props.C01c': ['DK.C01c.fn_grad'],
+    'DK.Props.C01all': ['DK.C01all.leaf_grad', 'DK.C01all.line_integral_of_grad', 'DK.C01all.idevice2_line_integral'],
+  }
   bridge = ['DK.Bridge.hlq_cost', 'DK.Bridge.hlq_deriv', 'DK.Bridge.abc_cost', 'DK.Bridge.abc_deriv', 'DK.Bridge.abc_q']
   rule = ('random leaf of every shipped class x horizon n (1..8 quick, ..31 thorough) x bounds with zero-width slots x '
           'scalar/vector parameters x in-bounds flow (interior / on bounds / mixed) x scalar/vector price; non-trivial: n >= 2, '
